@@ -90,7 +90,8 @@ func drawKey(t *rapid.T, f *gen.Func, label string) []uint64 {
 
 func keyString(k []uint64) string { return fmt.Sprint(k) }
 
-// Items draws 0..max items with pairwise distinct identifiers, in identifier order.
+// Items draws 0..max items with pairwise distinct identifiers, in identifier order (with
+// o.UnsortedFull sometimes in the order drawn).
 func Items(t *rapid.T, f *gen.Func, max int, o gen.Opt, label string) []reflect.Value {
 	n := rapid.IntRange(0, max).Draw(t, label+"#")
 	c := CapsOf(f)
@@ -111,14 +112,16 @@ func Items(t *rapid.T, f *gen.Func, max int, o gen.Opt, label string) []reflect.
 		seen[keyString(k)] = true
 		keys = append(keys, k)
 	}
-	sort.Slice(keys, func(i, j int) bool {
-		for x := range keys[i] {
-			if keys[i][x] != keys[j][x] {
-				return keys[i][x] < keys[j][x]
+	if !(o.UnsortedFull && len(keys) > 1 && rapid.IntRange(0, 2).Draw(t, label+".unsorted") == 0) {
+		sort.Slice(keys, func(i, j int) bool {
+			for x := range keys[i] {
+				if keys[i][x] != keys[j][x] {
+					return keys[i][x] < keys[j][x]
+				}
 			}
-		}
-		return false
-	})
+			return false
+		})
+	}
 	for i, k := range keys {
 		out = append(out, gen.Item(t, f, k, o, fmt.Sprintf("%s[%d]", label, i)))
 	}
